@@ -2,6 +2,7 @@
    This file only restates theorems proved in Proofs/DriverBox.v (driver model: coq/Model/Driver.v). *)
 From Coq Require Import List ZArith Bool String Floats.PrimFloat.
 From LBFGSB Require Import Base.Res Base.Hoare Base.FloatOrd Model.SF Model.FloatVec Model.Driver Proofs.DriverBox.
+From LBFGSB Require Generated.Base.
 Import ListNotations.
 Open Scope Z_scope.
 
@@ -47,6 +48,23 @@ Proof. exact okc_fixed. Qed.
 (* clipping produces NaN only from NaN *)
 Theorem C02_nan_only_from_nan : forall x l u, leb l u = true -> is_nan (fclip x l u) = true -> is_nan x = true.
 Proof. intros x l u H1 H2. exact (fclip_nan x l u H2 H1). Qed.
+
+(* The projection itself is read from the source on every run: the iterate update of main.py and the three trial-point expressions
+   of linesearch.py are translated (NumPy vector expressions -> Model/FloatVec.v) to ONE term, which is the projected point
+   vclip (x + a d) the driver model evaluates, updates and reports (the un-projected form of the pinned tree was defect D2). *)
+Lemma vadd_map_mul_vaxpy : forall (x d : vec) (a : float), vadd x (List.map (fun e_ => PrimFloat.mul a e_) d) = vaxpy x a d.
+Proof.
+  induction x as [|xi x IH]; intros d a; destruct d as [|di d]; cbn; try reflexivity.
+  unfold vadd, vaxpy in *. cbn. f_equal. apply IH.
+Qed.
+Theorem C02_projection_from_source : forall x a d lb ub,
+  LBFGSB.Generated.Base.projected_point x a d lb ub = vclip (vaxpy x a d) lb ub.
+Proof. intros. unfold LBFGSB.Generated.Base.projected_point. rewrite vadd_map_mul_vaxpy. reflexivity. Qed.
+Theorem C02_projection_sites_from_source :
+  LBFGSB.Generated.Base.projection_sites_src =
+  ["main: np.clip(x + steplength * d, lb, ub)"; "linesearch: np.clip(x0 + alpha * d, lb, ub)";
+   "linesearch: np.clip(x0 + steplength * d, lb, ub)"; "linesearch: np.clip(x0 + alpha * d, lb, ub)"]%string.
+Proof. reflexivity. Qed.
 
 Print Assumptions C02_points_in_box.
 Print Assumptions C02_not_outside.
